@@ -200,7 +200,7 @@ def match(mods_, doc, W, R, target, max_nodes=20000, trust_forced=True, normaliz
     return None, tried
 
 
-def match_all(mods_, doc, W, R, target, max_nodes=20000, trust_forced=True):
+def match_all(mods_, doc, W, R, target, max_nodes=20000, trust_forced=True, normalize_ctx=False):
     """Generator over EVERY assignment under which the reference rendering equals `target` (same search as match).
     After exhaustion `match_all.complete` semantics: the generator's return value (StopIteration.value) is True when the
     whole space was explored within max_nodes."""
@@ -221,7 +221,7 @@ def match_all(mods_, doc, W, R, target, max_nodes=20000, trust_forced=True):
                 pos[0] += 1
                 return v
             raise NeedDecision()
-        r = Ref(mods_, W, R, decide, trust_forced=trust_forced)
+        r = Ref(mods_, W, R, decide, trust_forced=trust_forced, normalize_ctx=normalize_ctx)
         try:
             r.run(0, False, doc)
         except NeedDecision:
